@@ -125,9 +125,9 @@ func runC05(c *Ctx) {
 	// the publication of a scope is either the call of the local publishing closure with that scope or, when the
 	// closure's body sits in onLeave itself (a helper inlined by the normalisation pass), the loop over that scope
 	pubScope := func(scope string) string {
-		return `^(call:router\.\(\*realm\)\.onLeave\$2\(&local:testaments\.` + scope + `\)|call:builtin:len\(&local:testaments\.` + scope + `\))$`
+		return `^(call:router\.\(\*realm\)\.onLeave\$2\(&?local:testaments\.` + scope + `\)|call:builtin:len\(&?local:testaments\.` + scope + `\))$`
 	}
-	c.Guard(r6, ol, "testaments published", `^(call:router\.\(\*realm\)\.onLeave\$2\(|call:builtin:len\(&local:testaments\.(detached|destroyed)\))`, 2,
+	c.Guard(r6, ol, "testaments published", `^(call:router\.\(\*realm\)\.onLeave\$2\(|call:builtin:len\(&?local:testaments\.(detached|destroyed)\))`, 2,
 		clause("session had testaments", T(`^local:hasTstm$`)), clause("not realm shutdown", F(`^%shutdown$`)), clause("not kill-all", F(`^%killAll$`)))
 	c.Reach(r6, ol, "a normal departure with testaments publishes both scopes", ReachSpec{
 		Stop: pubScope("detached"), Cut: []ir.Clause{clause("exempt", T(`^%shutdown$`), T(`^%killAll$`), F(`^local:hasTstm$`))}, Target: "EXIT", Want: false})
@@ -136,7 +136,7 @@ func runC05(c *Ctx) {
 	if fn := c.P.Func(ol + "$2"); fn != nil {
 		c.Has(r6, ol+"$2", "the publishing closure publishes the topic of each testament of the scope it is given", `^store:new\(wamp\.Publish\)\.&Topic=%testaments\.&\[.*\]\.topic$`, 1)
 	} else {
-		c.Has(r6, ol, "each testament of a scope is published under its own topic", `^store:new\(wamp\.Publish\)\.&Topic=&local:testaments\.(detached|destroyed)\.&\[.*\]\.topic$`, 2)
+		c.Has(r6, ol, "each testament of a scope is published under its own topic", `^store:new\(wamp\.Publish\)\.&Topic=&?local:testaments\.(detached|destroyed)\.&\[.*\]\.topic$`, 2)
 	}
 	ruleTestamentBuckets(c, r6)
 	c.R.Floor(r6, 13)
